@@ -67,11 +67,13 @@ def handle (j : Json) : Json := run do
     let n := ps.length
     return Json.mkObj [
       ("model", Json.mkObj [("n", toJson c.count), ("covarSamp", optRatJ c.covarSamp), ("covarPop", optRatJ c.covarPop),
-        ("ck", ratJ c.ck), ("mkX", ratJ c.mkX), ("mkY", ratJ c.mkY)]),
+        ("ck", ratJ c.ck), ("mkX", ratJ c.mkX), ("mkY", ratJ c.mkY), ("corrSq", optRatJ c.corrSq)]),
       ("spec", Json.mkObj [("n", toJson n),
         ("covarSamp", if n ≤ 1 then Json.null else ratJ (scp ps / ((n : Rat) - 1))),
         ("covarPop", if n = 0 then Json.null else ratJ (scp ps / n)),
-        ("ck", ratJ (scp ps)), ("mkX", ratJ (ssd (ps.map (·.1)))), ("mkY", ratJ (ssd (ps.map (·.2))))])]
+        ("ck", ratJ (scp ps)), ("mkX", ratJ (ssd (ps.map (·.1)))), ("mkY", ratJ (ssd (ps.map (·.2)))),
+        ("corrSq", if ssd (ps.map (·.1)) * ssd (ps.map (·.2)) = 0 then Json.null
+                   else ratJ (scp ps * scp ps / (ssd (ps.map (·.1)) * ssd (ps.map (·.2)))))])]
   | _ => throw "op"
 
 end Driver.C17
